@@ -222,7 +222,10 @@ def parse_plan(text):
         elif k == "task":
             cur = int(f[1])
         elif k == "op":
-            pl["tasks"][cur].append([f[1]] + [int(x) for x in f[2:8]])
+            ints = [int(x) for x in f[2:9]]
+            if len(ints) < 7:
+                ints.append(1)
+            pl["tasks"][cur].append([f[1]] + ints)
         elif k == "sched":
             pl["sched"] = [f[1], int(f[2]), float(f[3]), int(f[4])]
         elif k == "fault":
@@ -238,7 +241,7 @@ def plan_text(pl):
     for t, ops in enumerate(pl["tasks"]):
         out.append("task %d %d" % (t, len(ops)))
         for op in ops:
-            out.append("op %s %d %d %d %d %d %d" % tuple(op))
+            out.append("op %s %d %d %d %d %d %d %d" % tuple(op))
     s = pl["sched"]
     out.append("sched %s %d %.17g %d" % (s[0], s[1], s[2], s[3]))
     for f in pl["faults"]:
@@ -611,7 +614,7 @@ def process_candidate(ctx, runner, syms, cand_path, variant, found_rec, known, o
         "signature": s1,
         "what": describe_sig(s1),
         "plan": mtext,
-        "tasks": [[{"op": o[0], "fn": o[1], "objs": o[2:4], "salt": o[5], "throw_at": o[6]} for o in t] for t in pl_min["tasks"]],
+        "tasks": [[{"op": o[0], "fn": o[1], "objs": o[2:4], "salt": o[5], "throw_at": o[6], "repeat": o[7]} for o in t] for t in pl_min["tasks"]],
         "schedule": [{"task": w[0], "op": w[1], "event_offset": w[2], "to": w[3], "cause": SW_CAUSE.get(w[4], str(w[4]))}
                      for w in pl_min["sw"]],
         "expected": {"log": r1["log"], "clsbits": r1["clsbits"], "events": r1["events"], "switches": r1["switches"]},
